@@ -335,6 +335,29 @@ def bufferSizeConst (feats : Features) (f : Fmt) (fmt : Format) (o : WOpts) : Na
   let fs := if fmt.mantissaRadix = 10 then formattedSizeDecimal feats (tyName f) else formattedSize feats (tyName f)
   max (2 + sizeExp feats fmt o + sizeDigits fmt.mantissaRadix o) fs
 
+/-! ### the repaired formula (`fixes/C09-buffer-size-const.diff`)
+
+Two changes, both only ever enlarge the result: `max_significant_digits` no longer shrinks the digit allowance (all
+generated digits are written before they are truncated, and the digit writer claims a fixed 20/10-byte window), and the
+exponent allowance is at least 12 (symbol, sign and the exponent writer's fixed 10-byte window). -/
+
+def sizeDigitsFixed (radix : Nat) (o : WOpts) : Nat :=
+  let formatted := if radix = 10 then 28 else 64
+  match o.minDigits with | some mn => max formatted mn | none => formatted
+
+def sizeExpFixed (feats : Features) (fmt : Format) (o : WOpts) : Nat :=
+  if ¬ (effFmt feats fmt).noExponentNotation then
+    let minExp := o.negBreak.getD (-5)
+    let maxExp := o.posBreak.getD 9
+    let exp := asUsize (max (absI32 minExp) maxExp)
+    if feats.powerOfTwo ∧ exp < 13 then 13 else if exp < 12 then 12 else exp
+  else if feats.powerOfTwo then 1075 else 324
+
+/-- `buffer_size_const` after `fixes/C09-buffer-size-const.diff` -/
+def bufferSizeConstFixed (feats : Features) (f : Fmt) (fmt : Format) (o : WOpts) : Nat :=
+  let fs := if fmt.mantissaRadix = 10 then formattedSizeDecimal feats (tyName f) else formattedSize feats (tyName f)
+  max (2 + sizeExpFixed feats fmt o + sizeDigitsFixed fmt.mantissaRadix o) fs
+
 /-- `lexical_write_integer::Options::buffer_size_const::<T, FORMAT>` from `Gen.Sizes` -/
 def intBufferSizeConst (feats : Features) (name : String) (radix : Nat) : Nat :=
   if radix = 10 then formattedSizeDecimal feats name else formattedSize feats name
@@ -439,10 +462,10 @@ def finalCheck : Outcome → Outcome
 /-- `WriteFloat::write_float::<FORMAT>(self, bytes, options)`; `digits` = what the decimal digit generator
 (Dragonbox / Grisu) returns for `|self|`: significant digit values and scientific exponent (`([0], 0)` for zero).
 The caller's `&mut bytes[..count]` is the final `len ≤ bytes.length` check. -/
-def writeFloat (feats : Features) (f : Fmt) (fmt : Format) (o : WOpts) (debug : Bool) (bits : Nat)
+def writeFloatB (bound : Nat) (feats : Features) (f : Fmt) (fmt : Format) (o : WOpts) (debug : Bool) (bits : Nat)
     (digits : List Nat × Int) (buf : List Nat) : Outcome :=
   -- assert!(check_buffer(..)); assert!(format.is_valid()); mixed-radix assert
-  if buf.length < bufferSizeConst feats f fmt o then .panic
+  if buf.length < bound then .panic
   else if ¬ FormatError.isValid feats fmt.raw then .panic
   else if ¬ mixedRadixOk feats fmt then .panic
   else
@@ -461,5 +484,15 @@ def writeFloat (feats : Features) (f : Fmt) (fmt : Format) (o : WOpts) (debug : 
         else if f.isNaN bits then onTail sign rest (writeSpecial o.nan)
         else onTail sign rest (writeSpecial o.inf)
       finalCheck out
+
+/-- `write_float` with the current `buffer_size_const` in `check_buffer` -/
+def writeFloat (feats : Features) (f : Fmt) (fmt : Format) (o : WOpts) (debug : Bool) (bits : Nat)
+    (digits : List Nat × Int) (buf : List Nat) : Outcome :=
+  writeFloatB (bufferSizeConst feats f fmt o) feats f fmt o debug bits digits buf
+
+/-- `write_float` with the repaired `buffer_size_const` in `check_buffer` -/
+def writeFloatFixed (feats : Features) (f : Fmt) (fmt : Format) (o : WOpts) (debug : Bool) (bits : Nat)
+    (digits : List Nat × Int) (buf : List Nat) : Outcome :=
+  writeFloatB (bufferSizeConstFixed feats f fmt o) feats f fmt o debug bits digits buf
 
 end LexVerif.Model.WriteFloat
